@@ -10,7 +10,7 @@ SPEC = dict(
     trusted=["hashicorp/raft: every committed entry is handed to the FSM goroutine in log order, FSM.Apply is called for Command entries only, an entry missing from the log store is covered by a snapshot the FSM produced",
              "the FSM goroutine keeps running (fairness): C38_completes is stated for the state after it has applied the commands already committed",
              "VerifyLeader succeeding and the term staying unchanged are the 'leader that can reach a quorum' premise"],
-    assumptions=["latency threshold 900 ms against a 2 s LinearizableTimeout; the correct code answers in a few ms"],
+    assumptions=["the probe gives the read a 2 s LinearizableTimeout; the correct code answers in a few ms, the defective one never"],
     level_text="Theorems C38_completes / C38_completes_at_once / C38_completes_after_any_history hold for every log (entries of any kind in any order, compacted or not), every commit index and "
                "FSM position, with no further entry appended; C38_wait_on_commit_index_blocks exhibits the blocking of the wait as it was before the fix. "
                "The model's wait_lin, fed with the FSM position the model itself derives (drained), is the function evaluated on the driver's probes.",
